@@ -22,15 +22,18 @@ type profT struct {
 	ItemsFree  bool `json:"all_item_batch_sizes"`
 	// ext_init: the announced root carries the witness of header P (meaningful with StateRootInHeader off)
 	RootWitness bool `json:"witnessed_root,omitempty"`
+	// ext_epoch: one default line (all requested nodes per message), deviations (flush / restart / crash) only
+	// in the blocks stage and during the first epoch after the sync point; native getters compared after every block
+	Lean bool `json:"lean,omitempty"`
 }
 
 type statsT struct {
-	states, transitions, jobs, completed, merged, probes, rejected, restarts, crashes, jumps, forks, violations, outdated, leaked, initProbes, initRefused, initEvents vk.Counter
-	stages, orders, crashStates                                                                                                                                        *vk.Set
-	initCtx                                                                                                                                                            *ctxSet
-	mu                                                                                                                                                                 sync.Mutex
-	finals                                                                                                                                                             map[string]map[string]int
-	run                                                                                                                                                                *vk.Run
+	states, transitions, jobs, completed, merged, probes, rejected, restarts, crashes, jumps, forks, violations, outdated, leaked, initProbes, initRefused, initEvents, nativeReads, inlines vk.Counter
+	stages, orders, crashStates                                                                                                                                                              *vk.Set
+	initCtx                                                                                                                                                                                  *ctxSet
+	mu                                                                                                                                                                                       sync.Mutex
+	finals                                                                                                                                                                                   map[string]map[string]int
+	run                                                                                                                                                                                      *vk.Run
 }
 
 func newStats(r *vk.Run) *statsT {
@@ -256,6 +259,15 @@ func (x *explorer) report(c *confT, r *runner, v *viol) {
 	}
 	// one report per oracle and kind of the last deviation (the queue hands out
 	// the simplest traces first); all occurrences are counted
+	if v.Oracle != "inline-child-lost" {
+		for _, e := range r.tr {
+			if e.K == "inl" && !e.P {
+				// ext_inline: whatever goes wrong after a node with an inline child was taken
+				v.Oracle = "after-inline-child:" + v.Oracle
+				break
+			}
+		}
+	}
 	group := v.Oracle + "|" + lastDev
 	x.mu.Lock()
 	dup := x.seenV[group]
